@@ -256,7 +256,29 @@ class Ctx:
         self.log("coqchk: ok (%.0fs), axioms: %s" % (time.time() - t, ax.replace("\n", " ")))
         return True, ""
 
+    def ensure_gt_modules(self, vtext):
+        """build (incrementally, under the lock) every GT module a generated file requires: tie files and case
+        headers import modules that are outside the Require-cone of Props/Cxx.v, and after a fresh checkout
+        nothing but that cone and META["coq_targets"] has been compiled"""
+        txt = strip_comments(vtext)
+        mods = []
+        for m in re.finditer(r"From\s+GT\s+Require\s+(.*?)\.(?=\s|$)", txt, re.S):
+            mods += [n for n in m.group(1).split() if n not in ("Import", "Export")]
+        mods += re.findall(r"Require\s+(?:Import\s+|Export\s+)?GT\.([\w.]+)\s*\.", txt)
+        targets = sorted({"theories/" + n.replace(".", "/") + ".vo" for n in mods
+                          if os.path.isfile(os.path.join(THEORIES, n.replace(".", "/") + ".v"))})
+        todo = [t for t in targets if t not in getattr(self, "_built_mods", set())]
+        if not todo:
+            return True, ""
+        ok, log = self.coq_build(todo)
+        if ok:
+            self._built_mods = getattr(self, "_built_mods", set()) | set(todo)
+        return ok, log
+
     def coq_eval(self, name, vtext, timeout=900, extra_q=()):
+        ok, log = self.ensure_gt_modules(vtext)
+        if not ok:
+            return 2, "cannot build the GT modules this file requires:\n" + log[-2500:]
         p = os.path.join(self.gen, name + ".v")
         with open(p, "w") as f:
             f.write(vtext)
